@@ -48,6 +48,31 @@ def tlsh_model(cfg, data, force=False):
     hdr = [swap(x) for x in cs] + [swap(lvalue(n))] + [((int(q1 * 100. / q3) % 16) << 4) | (int(q2 * 100. / q3) % 16)]
     return bytes(hdr + code[::-1])
 
+_BOUNDARY = {}
+def boundary_inputs(cfg):
+    """low-entropy periodic inputs whose number of populated buckets is exactly half (the rejection threshold) or half+1,
+    found by a deterministic search with the model's own bucket count"""
+    if cfg in _BOUNDARY: return _BOUNDARY[cfg]
+    buckets, wnd, chk = cfg; T = tlsh.PEARSON_T
+    want = {buckets // 2: None, buckets // 2 + 1: None}
+    if buckets == 48: want[17] = None; want[18] = None
+    r = random.Random(4242)
+    for attempt in range(4000):
+        if all(v is not None for v in want.values()): break
+        period = r.randrange(3, 60)
+        pat = bytes(r.randrange(256) for _ in range(period))
+        data = (pat * (300 // period + 2))[:300]
+        bk = [0] * 256
+        for e in range(wnd, len(data) + 1):
+            win = data[e - wnd:e]
+            for s_, i, j, k in SALTS:
+                if k > wnd: break
+                bk[pearson(T, s_, win[-i], win[-j], win[-k])] += 1
+        nz = sum(1 for x in bk[:buckets] if x)
+        if nz in want and want[nz] is None: want[nz] = data
+    _BOUNDARY[cfg] = [v for v in want.values() if v is not None]
+    return _BOUNDARY[cfg]
+
 def corpus(seed, tier):
     r = random.Random(seed)
     out = [b'', b'a' * 10, b'a' * 300, bytes(range(256)), bytes(range(256)) * 3, bytes(r.randrange(256) for _ in range(49)), bytes(r.randrange(256) for _ in range(50)),
@@ -64,7 +89,7 @@ def corpus(seed, tier):
 def _(c):
     cfg = tuple(int(x) for x in c.case('cfg').split(','))
     t = tlsh.TLSH(*cfg)
-    for k, data in enumerate(corpus(1, 'quick')):
+    for k, data in enumerate(corpus(1, 'quick') + boundary_inputs(cfg)):
         for force in (False, True):
             o = c.outcome(t, data, force)
             exp = tlsh_model(cfg, data, force)
